@@ -958,11 +958,52 @@ def oracle_c09(sc, res):
         if e is None or e[0] > q[0]:
             vios.append(Violation("C09", "service-survived-exit", {"engine": sc["engine"]},
                                   f"service {ident} of {c['state']} activation {a.idx} still running at the quiescent point after its exit"))
+    # invoked child MACHINES: at every quiescent observation a running child interpreter of the root belongs to an invoke
+    # whose state is active ("once the state is exited ... no task, thread or child interpreter started for it remains alive")
+    svc_all = (sc.get("logic") or {}).get("services") or {}
+    minv = []
+
+    def _walk_inv(c, sid):
+        iv = c.get("invoke")
+        for one in (iv if isinstance(iv, list) else [iv] if iv else []):
+            if isinstance(one, dict) and (svc_all.get(one.get("src")) or {}).get("k") == "machine":
+                minv.append((sid, one.get("id"), one.get("src")))
+        for k_, ch in (c.get("states") or {}).items():
+            _walk_inv(ch, f"{sid}.{k_}")
+    _walk_inv(sc["machine"], sc["machine"]["id"])
+    if minv:
+        root_id = sc["machine"]["id"]
+        for o_ in w.obs:
+            if o_[5] != root_id or not isinstance(o_[6], dict) or o_[6].get("status") != "running":
+                continue
+            cfg_now = set(o_[6]["cfg"])
+            bad = None
+            for iid, ist, ipar in o_[6].get("interps") or ():
+                if ist != "running" or ipar != root_id:
+                    continue
+                owners = [sid for sid, inv_id, src in minv if iid == f"{root_id}:{inv_id}" or iid.startswith(f"{root_id}:{src}:")]
+                if owners and not any(sid in cfg_now for sid in owners):
+                    bad = (iid, owners)
+                    break
+            if bad:
+                vios.append(Violation("C09", "child-machine-survived-exit", {"engine": sc["engine"]},
+                                      f"child interpreter {bad[0]} is still running at observation {o_[4]} although none of its invoking "
+                                      f"states {bad[1]} is active"))
+                break
     after_stop = w.final_obs("after-stop")
     if after_stop is not None:
-        if after_stop["census"]:
+        # a sync actor's polling thread notices the stop at its next poll (<= 10 ms): it is judged once the clock has moved
+        late = w.final_obs("after-stop-late")
+        now_census = tuple(c_ for c_ in after_stop["census"] if not str(c_).startswith("actor-"))
+        late_census = tuple(late["census"]) if late is not None else ()
+        if now_census or late_census:
             vios.append(Violation("C09", "alive-after-stop", {"engine": sc["engine"]},
-                                  f"after stop(): still alive {after_stop['census']}"))
+                                  f"after stop(): still alive {now_census or late_census}"))
+        # no interpreter created for an invoked machine (or by one) is still running
+        zombies = [i_ for i_ in (after_stop.get("interps") or ()) if i_[1] == "running"]
+        if zombies:
+            vios.append(Violation("C09", "child-interpreter-alive-after-stop", {"engine": sc["engine"]},
+                                  f"after stop(): interpreters still running {zombies[:3]}"))
         for ident, c in calls.items():
             spec = svc_specs.get(ident[0]) or {}
             if spec.get("k") == "coro" and ident not in ends:
